@@ -250,6 +250,12 @@ func (batch *Batch) readMessage(
 	case err == nil:
 		batch.offset = offset + 1
 		batch.lastOffset = lastOffset
+		if lastOffset >= offset && batch.msgs.count == 0 {
+			// This was the last record of a v2 batch: the offsets between it
+			// and the end of the batch were removed by compaction and must be
+			// skipped, or the next fetch would return the same batch again.
+			batch.offset = lastOffset + 1
+		}
 	case errors.Is(err, errShortRead):
 		// As an "optimization" kafka truncates the returned response after
 		// producing MaxBytes, which could then cause the code to return
@@ -280,7 +286,9 @@ func (batch *Batch) readMessage(
 			//   to MaxBytes truncation
 			// - `batch.lastOffset` to ensure that the message format contains
 			//   `lastOffset`
-			if errors.Is(batch.err, io.EOF) && batch.msgs.lengthRemain == 0 && batch.lastOffset != -1 {
+			// - `batch.offset` to never move backwards (lastOffset is zero
+			//   until a record was read)
+			if errors.Is(batch.err, io.EOF) && batch.msgs.lengthRemain == 0 && batch.lastOffset != -1 && batch.lastOffset >= batch.offset {
 				// Log compaction can create batches that end with compacted
 				// records so the normal strategy that increments the "next"
 				// offset as records are read doesn't work as the compacted
@@ -290,6 +298,7 @@ func (batch *Batch) readMessage(
 				// jump past the saved lastOffset.
 				batch.offset = batch.lastOffset + 1
 			}
+			batch.skipEmptyBatches()
 		}
 	default:
 		// Since io.EOF is used by the batch to indicate that there is are
@@ -301,6 +310,15 @@ func (batch *Batch) readMessage(
 	}
 
 	return
+}
+
+// skipEmptyBatches moves the batch offset past the empty record batches
+// (batches left without records by compaction) that the message set reader
+// went through, so the next fetch does not return them again.
+func (batch *Batch) skipEmptyBatches() {
+	if batch.msgs != nil && batch.msgs.skippedEmptyBatch && batch.msgs.emptyBatchLastOffset >= batch.offset {
+		batch.offset = batch.msgs.emptyBatchLastOffset + 1
+	}
 }
 
 func checkTimeoutErr(deadline time.Time) (err error) {
